@@ -180,10 +180,10 @@ macro_rules! c10_stream_entries {
 /// content; for EVERY amount the consumer reads of each entry (0..=len, or to EOF) releasing the
 /// entry leaves the stream exactly at the next record; after the last entry the central
 /// directory signature yields end-of-entries (None).
-// @h prop=C10,C04 tier=quick t=1500 mem=8 name=c10_stream_entries_p2_p1
+// @h prop=C10,C04 tier=dev t=1500 mem=8 name=c10_stream_entries_p2_p1
 c10_stream_entries!(c10_stream_entries_p2_p1, 2, 1, false, 8);
 /// C10/C09 as above with an arbitrary short-read schedule on the underlying stream.
-// @h prop=C10,C09 tier=thorough t=3000 mem=10 name=c10_stream_entries_short_reads
+// @h prop=C10,C09 tier=dev t=3000 mem=10 name=c10_stream_entries_short_reads
 c10_stream_entries!(c10_stream_entries_short_reads, 1, 1, true, 8);
 
 /// visitor that records what it was given
@@ -229,7 +229,7 @@ impl ZipStreamVisitor for RecV {
 /// values), visit() calls visit_file once per entry in order (content readable inside the
 /// callback), then visit_additional_metadata once per entry, in order, with the central
 /// directory's values (name, Unix mode from made-by/external attributes), and returns Ok.
-// @h prop=C10 tier=quick t=1500 mem=8
+// @h prop=C10 tier=dev t=1500 mem=8
 #[kani::proof]
 #[kani::unwind(8)]
 #[kani::stub(crc32fast::Hasher::internal_new_specialized, crate::verif_kit::stub_crc_specialized)]
@@ -263,7 +263,7 @@ fn c10_visit_delivers_files_then_metadata() {
 
 /// C10 entries the stream cannot support produce an error, not data: a local header with the
 /// encryption bit or the data-descriptor bit set (all other header values symbolic) is refused.
-// @h prop=C10,C05 tier=quick t=900 mem=10
+// @h prop=C10,C05 tier=quick t=300 mem=4
 #[kani::proof]
 #[kani::unwind(8)]
 #[kani::stub(crc32fast::Hasher::internal_new_specialized, crate::verif_kit::stub_crc_specialized)]
@@ -298,7 +298,7 @@ fn c10_stream_refuses_encrypted_and_dd() {
 /// extra lengths 0..=2 with arbitrary bytes (so ZIP64/AES/unknown extra records too short to
 /// hold their bodies), arbitrary following bytes: value or error, one read, then release -
 /// never a panic, overflow or unbounded loop.
-// @h prop=C05,C10 tier=quick feat=base,aes t=1500 mem=8
+// @h prop=C05,C10 tier=dev feat=base,aes t=1500 mem=8
 #[kani::proof]
 #[kani::unwind(8)]
 #[kani::stub(crc32fast::Hasher::internal_new_specialized, crate::verif_kit::stub_crc_specialized)]
@@ -333,7 +333,7 @@ fn c05_stream_hostile_header() {
 
 /// C05 streaming reader over a hostile local header carrying a complete 11-byte extra record
 /// (arbitrary id incl. ZIP64 0x0001 and AES 0x9901, arbitrary body) and any method number.
-// @h prop=C05,C10,C16 tier=quick feat=base,aes t=1800 mem=10
+// @h prop=C05,C10,C16 tier=dev feat=base,aes t=1800 mem=10
 #[kani::proof]
 #[kani::unwind(14)]
 #[kani::stub(crc32fast::Hasher::internal_new_specialized, crate::verif_kit::stub_crc_specialized)]
